@@ -20,6 +20,11 @@ THEOREMS = [
     "C20.consts_pinned", "C20.save_puts_z_first", "C20.axes_roundtrip", "C20.axes_roundtrip_3d", "C20.unknown_axis", "C20.rescale_table",
     "C20.uint_float_uint", "C20.float_uint_float", "C20.grid_covers", "C20.bbox_contains", "C20.swept_ends",
     "C20.contained_swept_in_ball", "C20.contained_swept_in_ball'", "C20.degenerate_edge_is_ball", "C20.coincident_is_ball",
+    # the generated image_stack.py logic (Gen/AlgoRaster.lean) refines the model (Refine/Raster.lean), and the model theorems restated for it
+    "RefineRaster.tp3f_eq", "RefineRaster.samplers_refines", "RefineRaster.bbox_refines", "RefineRaster.leave_refines", "RefineRaster.getScene_refines",
+    "RefineRaster.edgeSolid_model", "RefineRaster.transform_refines",
+    "C20.generated_slices", "C20.generated_bbox_contains", "C20.generated_bbox_integral", "C20.generated_edge_rule", "C20.sceneRose_length",
+    "C20.generated_scene_every_tree", "C20.generated_transform_every_tree",
 ]
 TRUSTED = ["hand-written models Model/Images.lean of the axis bookkeeping (index tuples), the rescaling decisions and the voxel grid; AXES_ORDER, UINT_MAX and "
            "the 'ZXYC' axes string are regenerated from images/io.py on every run (Gen/Consts.lean)"]
